@@ -755,7 +755,7 @@ pub fn replay_input(rep: &mut Report, v: &Value, group: &mut LintGroup, dict: &s
 
 pub fn run(a: &Args, corpus: &[Value]) {
     let mut rep = Report::new(&a.out);
-    rep.rule = "(text, span, suggestion) triples: random (|text|<=12, alphabet incl. astral chars; spans inside the text incl. both ends, empty spans, equal-length replace) + a malformed stream of spans outside the text (panic agreement only); documents in every front-end (plain, Markdown x2, HTML, Typst, LHS, git-commit, 22 comment languages, +CollapseIdentifiers/+IsolateEnglish) under default / all-rules / random configurations: every lint in bounds, every suggestion = splice; thorough adds all triples with |text|<=6 over {a,b}. non-trivial = distinct in-bounds triple, or distinct document with >=1 lint".into();
+    rep.rule = "(text, span, suggestion) triples: random (|text|<=12, alphabet incl. astral chars; spans inside the text incl. both ends, empty spans, equal-length replace) + a malformed stream of spans outside the text (panic agreement only); documents in every front-end (plain, Markdown x2, HTML, Typst, LHS, git-commit, 22 comment languages, +CollapseIdentifiers/+IsolateEnglish) under default / all-rules / random configurations: every lint in bounds, every suggestion = splice; thorough adds all triples with |text|<=6 over {a,b}. span.rs: every function (19 opcodes) on random spans / arguments incl. values up to usize::MAX and ill-formed spans, with the algebra (inverse laws, with_len, overlaps = shared position, get_content = slice) evaluated on the implementation, thorough adds all spans/arguments over 0..=5; LintGroup::lint: histories (configuration changes, 2-5 documents built from a pool of clauses that recur at other offsets, twin clauses) on one LintGroup::empty() carrying 3 whole-document and 5 pattern test rules (two stateful, two deliberately violating the chunk premise: panics and out-of-bounds lints included), in-bounds oracle when only well-behaved rules are enabled; premise monitor: 29 exported pattern rules run chunk by chunk on the generated documents, every lint inside its chunk. non-trivial = distinct in-bounds triple, distinct document with >=1 lint, distinct span case, or history with a clause recurring at another offset".into();
     let dict = FstDictionary::curated();
     let mut group = LintGroup::new_curated(dict.clone(), Dialect::American);
     for c in corpus {
